@@ -36,6 +36,7 @@ where
 {
     #[pin]
     input_stream: S,
+    input_done: bool,
     buffer: Buffer,
     tx: BufferSender<T>,
     rx: BufferReceiver<P, T>,
@@ -54,6 +55,7 @@ where
         let (buffer, tx, rx) = Buffer::new(processor);
         ProcessorStream {
             input_stream,
+            input_done: false,
             buffer,
             tx,
             rx,
@@ -81,13 +83,20 @@ where
         // if the processor has more work to do. Processors never cease operation and are only
         // stopped via higher level logic. This is why we also continue here in the `Stream` and
         // never terminate.
-        match this.input_stream.as_mut().poll_next(cx) {
-            Poll::Ready(Some(input)) => {
-                let _ = this.tx.send(input);
-                made_progress = true;
-            }
-            Poll::Ready(None) | Poll::Pending => (),
-        };
+        // A stream must not be polled again after it has finished, we keep on running though to
+        // yield the remaining outputs of the processor.
+        if !*this.input_done {
+            match this.input_stream.as_mut().poll_next(cx) {
+                Poll::Ready(Some(input)) => {
+                    let _ = this.tx.send(input);
+                    made_progress = true;
+                }
+                Poll::Ready(None) => {
+                    *this.input_done = true;
+                }
+                Poll::Pending => (),
+            };
+        }
 
         // Check output of processor.
         //
